@@ -1,6 +1,7 @@
 import LinOp.Core.Parse
 import LinOp.C19.Model
 import LinOp.C19.PairModel
+import LinOp.C19.ExtModel
 import LinOp.Generated.C19Guards
 /-! Line-protocol driver for the C19 shape-guard model.
 `<fn> <shapeA> <shapeB>` → `ok <shape>` | `ok` | `err <kind>`; shapes are comma lists, `-` = (). -/
@@ -81,8 +82,28 @@ def stepLine (_ : Unit) (line : String) : Unit × String :=
              if fn = "diagpair" then showRes (Impl.diagPairMatmul Ar.reverse n Br.reverse m)
              else showRes (Impl.constantDiagPairAdd Ar.reverse n Br.reverse m)
            | _, _ => "bad-op")
+        else if fn = "rmm" then showRes (Impl.rmatmulGuard a b)
+        else if fn = "rmmspec" then showOpt (Spec.rmatmulShape? a b)
+        else if fn = "addlowrank" then showRes (Impl.addLowRank a b)
         else if fn = "square" then showUnit (Impl.squareGuard (a != [0]) b)
         else "bad-op"
+      | _, _ => "bad-op"
+    | ["adddiagdef", c, a, b] =>
+      match Impl.addDiagKindOf c, parseNats? a, parseNats? b with
+      | some k, some a, some b => showRes (Impl.addDiagVerdict k a b)
+      | none, _, _ => "unknown-definer"
+      | _, _, _ => "bad-op"
+    | ["catrows", a, b, l] =>
+      match parseNats? a, parseNats? b, parseNats? l with
+      | some a, some b, some l => showRes (Impl.catRows a b l)
+      | _, _, _ => "bad-op"
+    | ["catrowsspec", a, b, l] =>
+      match parseNats? a, parseNats? b, parseNats? l with
+      | some a, some b, some l => showOpt (Spec.catRowsShape? a b l)
+      | _, _, _ => "bad-op"
+    | "catctor" :: dbg :: dim :: shapes =>
+      match dim.toNat?, shapes.mapM parseNats? with
+      | some d, some ss => showRes (Impl.catCtor (dbg = "1") ss d)
       | _, _ => "bad-op"
     | ["solveleft", a, b, l] =>
       match parseNats? a, parseNats? b, parseNats? l with
